@@ -21,7 +21,7 @@ import (
 // Every source x entry point (Parse, StmtsSeq, StmtsSeq with a consumer that breaks after the first
 // statement, WordsSeq, Words, InteractiveSeq fed one line per Read, Document, Arithmetic) x 5 language
 // variants x 4 option rows (KeepComments, StopAt("$$"), RecoverErrors 0|1|5) is called under recover().
-// With "post", every tree that comes back (also from RecoverErrors, also next to an error) is printed
+// With "post", every tree that comes back without an error (also from RecoverErrors) is printed
 // with four printer configurations, simplified (on a second parse), walked and typedjson-encoded,
 // each under recover().  With "linear", Parse of the source repeated 64x and 512x is timed (best of
 // three) and the ratio reported.
@@ -88,13 +88,13 @@ var entries = []string{"Parse", "StmtsSeq", "StmtsSeq+break", "WordsSeq", "Words
 func callEntry(entry string, p *syntax.Parser, src []byte) (nodes []syntax.Node) {
 	switch entry {
 	case "Parse":
-		f, _ := p.Parse(bytes.NewReader(src), "")
-		if f != nil {
+		f, err := p.Parse(bytes.NewReader(src), "")
+		if f != nil && err == nil {
 			nodes = append(nodes, f)
 		}
 	case "StmtsSeq", "StmtsSeq+break":
-		for s, _ := range p.StmtsSeq(bytes.NewReader(src)) {
-			if s != nil {
+		for s, err := range p.StmtsSeq(bytes.NewReader(src)) {
+			if s != nil && err == nil {
 				nodes = append(nodes, s)
 			}
 			if entry == "StmtsSeq+break" {
@@ -102,8 +102,8 @@ func callEntry(entry string, p *syntax.Parser, src []byte) (nodes []syntax.Node)
 			}
 		}
 	case "WordsSeq":
-		for w, _ := range p.WordsSeq(bytes.NewReader(src)) {
-			if w != nil {
+		for w, err := range p.WordsSeq(bytes.NewReader(src)) {
+			if w != nil && err == nil {
 				nodes = append(nodes, w)
 			}
 		}
@@ -114,8 +114,10 @@ func callEntry(entry string, p *syntax.Parser, src []byte) (nodes []syntax.Node)
 		})
 	case "InteractiveSeq":
 		var ev [][]int
-		for stmts, _ := range p.InteractiveSeq(&lineReader{lines: splitLines(src), ev: &ev}) {
-			_ = p.Incomplete()
+		for stmts, err := range p.InteractiveSeq(&lineReader{lines: splitLines(src), ev: &ev}) {
+			if p.Incomplete() || err != nil {
+				continue // nothing is handed over
+			}
 			for _, s := range stmts {
 				if s != nil {
 					nodes = append(nodes, s)
@@ -123,13 +125,13 @@ func callEntry(entry string, p *syntax.Parser, src []byte) (nodes []syntax.Node)
 			}
 		}
 	case "Document":
-		w, _ := p.Document(bytes.NewReader(src))
-		if w != nil {
+		w, err := p.Document(bytes.NewReader(src))
+		if w != nil && err == nil {
 			nodes = append(nodes, w)
 		}
 	case "Arithmetic":
-		x, _ := p.Arithmetic(bytes.NewReader(src))
-		if x != nil {
+		x, err := p.Arithmetic(bytes.NewReader(src))
+		if x != nil && err == nil {
 			nodes = append(nodes, x)
 		}
 	}
